@@ -1180,3 +1180,469 @@ func instrReaches(a, b ssa.Instruction) bool {
 	}
 	return walk(a.Block())
 }
+
+// ---------------------------------------------------------------------------
+// httpServersFollowTheEvaluation: a server started by the http module belongs to
+// the evaluation that started it.  (a) Its request contexts are rooted in the
+// evaluation's context (http.Server.BaseContext): the script handler of a
+// request is then cancelled with the evaluation and sees the OS its context
+// carries; with the default (Background) a handler that loops runs on after
+// Eval has returned.  (b) The function that starts the server waits for that
+// context before it shuts the server down.
+func httpServersFollowTheEvaluation(c *core.Ctx) {
+	p := c.P
+	if !p.HasPkg("modules/http") {
+		core.Undecidedf("modules/http not loaded")
+	}
+	n := 0
+	for _, fn := range repoFns(p, "modules/http") {
+		if fn.Parent() != nil {
+			continue
+		}
+		var servers []*ssa.Alloc
+		for _, b := range fn.Blocks {
+			for _, in := range b.Instrs {
+				if a, ok := in.(*ssa.Alloc); ok {
+					if pt, ok := a.Type().(*types.Pointer); ok {
+						if nt, ok := pt.Elem().(*types.Named); ok && nt.Obj().Name() == "Server" && nt.Obj().Pkg() != nil && nt.Obj().Pkg().Path() == "net/http" {
+							servers = append(servers, a)
+						}
+					}
+				}
+			}
+		}
+		if len(servers) == 0 {
+			continue
+		}
+		var ctxP *ssa.Parameter
+		for _, prm := range fn.Params {
+			if isContext(prm.Type()) {
+				ctxP = prm
+			}
+		}
+		for _, srv := range servers {
+			n++
+			base := false
+			if refs := srv.Referrers(); refs != nil {
+				for _, r := range *refs {
+					fa, ok := r.(*ssa.FieldAddr)
+					if !ok || fa.Referrers() == nil {
+						continue
+					}
+					st := fa.X.Type().Underlying().(*types.Pointer).Elem().Underlying().(*types.Struct)
+					if st.Field(fa.Field).Name() != "BaseContext" {
+						continue
+					}
+					for _, r2 := range *fa.Referrers() {
+						if s, ok := r2.(*ssa.Store); ok {
+							if mc, ok := s.Val.(*ssa.MakeClosure); ok && ctxP != nil {
+								for _, bnd := range mc.Bindings {
+									if core.DependsOn(bnd, func(w ssa.Value) bool { return w == ssa.Value(ctxP) }) || bnd == ssa.Value(ctxP) {
+										base = true
+									}
+								}
+								// the context parameter may live in a cell because it is re-assigned later
+								for _, bnd := range mc.Bindings {
+									if al, ok := bnd.(*ssa.Alloc); ok && al.Comment == ctxP.Name() {
+										base = true
+									}
+								}
+							}
+						}
+					}
+				}
+			}
+			c.Check(base, core.SSAName(fn)+"|request-contexts-rooted-in-evaluation", p.Pos(srv.Pos()),
+				fn.Name()+" sets BaseContext of the server to the evaluation's context"+ifs(!base, ": request contexts are then rooted in Background, so a handler is not cancelled with the evaluation (it keeps running after Eval returned) and does not see the OS the evaluation's context carries"))
+			// (b) waits for the context before Shutdown
+			waits := false
+			for _, b := range fn.Blocks {
+				for _, in := range b.Instrs {
+					sel, ok := in.(*ssa.Select)
+					if !ok {
+						continue
+					}
+					for _, stt := range sel.States {
+						if call, ok := stt.Chan.(*ssa.Call); ok && call.Call.IsInvoke() && call.Call.Method.Name() == "Done" {
+							for _, b2 := range fn.Blocks {
+								for _, i2 := range b2.Instrs {
+									if ci, ok := i2.(ssa.CallInstruction); ok {
+										if cal := ci.Common().StaticCallee(); cal != nil && cal.Name() == "Shutdown" && instrDominates(in, i2) {
+											waits = true
+										}
+									}
+								}
+							}
+						}
+					}
+				}
+			}
+			c.Check(waits, core.SSAName(fn)+"|serves-until-the-context-ends", p.Pos(srv.Pos()),
+				fn.Name()+" waits for the evaluation's context (or a signal) before it shuts the server down"+ifs(!waits, ": the server is shut down as soon as it was started"))
+		}
+	}
+	if n == 0 {
+		core.Undecidedf("modules/http builds no http.Server")
+	}
+	c.Stat("http_servers", n)
+}
+
+// ---------------------------------------------------------------------------
+// evaluationsCloseOnlyWhatTheyOpened: object.NewFile ties the life of a file to
+// a context (it closes the file when the context ends).  That is right for a
+// file the script opened; the standard streams belong to the host (they are
+// the process's own, or whatever the host's OS object hands out) and are shared
+// by every evaluation in the process: closing them when one evaluation is
+// cancelled breaks print() for all the others.
+func evaluationsCloseOnlyWhatTheyOpened(c *core.Ctx) {
+	p := c.P
+	n, opened := 0, 0
+	for _, fn := range repoFns(p) {
+		for _, b := range fn.Blocks {
+			for _, in := range b.Instrs {
+				call, ok := in.(*ssa.Call)
+				if !ok {
+					continue
+				}
+				cal := call.Call.StaticCallee()
+				if cal == nil || cal.Name() != "NewFile" || cal.Pkg == nil || core.RelPkg(cal.Pkg.Pkg) != "object" || len(call.Call.Args) < 2 {
+					continue
+				}
+				host := ""
+				for _, o := range core.Origins(call.Call.Args[1]) {
+					if ic, ok := o.(*ssa.Call); ok && ic.Call.IsInvoke() {
+						switch ic.Call.Method.Name() {
+						case "Stdin", "Stdout", "Stderr":
+							host = ic.Call.Method.Name()
+						}
+					}
+				}
+				if host == "" {
+					opened++
+					continue
+				}
+				n++
+				owner := fn
+				for owner.Parent() != nil {
+					owner = owner.Parent()
+				}
+				c.Check(false, core.SSAName(owner)+"|host-stream-tied-to-context|"+host, p.Pos(call.Pos()),
+					fn.Name()+" wraps the host's "+host+"() in a file object that is closed when the evaluation's context ends: after one cancelled evaluation the stream is closed for the host and for every other evaluation")
+			}
+		}
+	}
+	c.Check(opened > 0, "control|files-opened-by-scripts", "", sprintf("%d file objects made for files a script opened (positive control), %d for host streams", opened, n))
+	c.Stat("host_streams_wrapped", n)
+}
+
+// ---------------------------------------------------------------------------
+// constructorErrorsAreRaised: a constructor of package object that returns
+// object.Object reports failure by returning an *object.Error.  Where the
+// dispatch loop pushes the result of such a constructor, it tests for that
+// error first and raises it: pushed as it is, the error becomes the value of
+// the expression (x := {[1, 2]} gives a variable of type "error").
+func constructorErrorsAreRaised(c *core.Ctx) {
+	p := c.P
+	t := VMTable(p)
+	eval := p.SSAFunc(t.Eval)
+	push := p.SSAFunc(t.Prims["push"])
+	if eval == nil || push == nil {
+		core.Undecidedf("dispatch function / push not resolved")
+	}
+	errT := core.MustType(p.Pkg("object"), "Error")
+	mayReturnError := func(f *ssa.Function) bool {
+		if f == nil || f.Blocks == nil || f.Signature.Results().Len() != 1 || !core.IsNamed(f.Signature.Results().At(0).Type(), pkgPath("object"), "Object") {
+			return false
+		}
+		if _, isIface := f.Signature.Results().At(0).Type().Underlying().(*types.Interface); !isIface {
+			return false
+		}
+		for _, b := range f.Blocks {
+			for _, in := range b.Instrs {
+				if ret, ok := in.(*ssa.Return); ok && len(ret.Results) == 1 {
+					for _, o := range core.Origins(spilledResult(b, ret.Results[0])) {
+						if mi, ok := o.(*ssa.MakeInterface); ok && core.NamedOf(mi.X.Type()) == errT {
+							return true
+						}
+						// the result of a method that itself returns Object and is tested with IsError here
+						if call, ok := o.(*ssa.Call); ok {
+							if refs := call.Referrers(); refs != nil {
+								for _, r := range *refs {
+									if ci, ok := r.(ssa.CallInstruction); ok {
+										if cal := ci.Common().StaticCallee(); cal != nil && cal.Name() == "IsError" {
+											return true
+										}
+									}
+								}
+							}
+						}
+					}
+				}
+			}
+		}
+		return false
+	}
+	n := 0
+	for _, b := range eval.Blocks {
+		for _, in := range b.Instrs {
+			call, ok := in.(*ssa.Call)
+			if !ok || call.Call.StaticCallee() != push || len(call.Call.Args) < 2 {
+				continue
+			}
+			src, ok := call.Call.Args[1].(*ssa.Call)
+			if !ok {
+				continue
+			}
+			cal := src.Call.StaticCallee()
+			if cal == nil || cal.Pkg == nil || core.RelPkg(cal.Pkg.Pkg) != "object" || !strings.HasPrefix(cal.Name(), "New") || !mayReturnError(cal) {
+				continue
+			}
+			n++
+			tested := false
+			if refs := src.Referrers(); refs != nil {
+				for _, r := range *refs {
+					if ta, ok := r.(*ssa.TypeAssert); ok && core.NamedOf(ta.AssertedType) == errT && instrDominates(ta, in) {
+						tested = true
+					}
+				}
+			}
+			c.Check(tested, "vm.eval|pushes-"+cal.Name()+"-after-error-test", p.Pos(call.Pos()),
+				"the dispatch loop tests the result of object."+cal.Name()+" for an error before it pushes it"+ifs(!tested, ": the error object becomes the value of the expression instead of being raised"))
+		}
+	}
+	c.Stat("constructor_pushes", n)
+	if n == 0 {
+		c.Pass("vm.eval|no-fallible-constructor-pushes", "", "the dispatch loop pushes no result of a fallible object constructor directly")
+	}
+}
+
+// ---------------------------------------------------------------------------
+// sliceBoundsShareTheLimit: a slice [start:stop] of a container of n elements is
+// valid for 0 <= start <= stop <= n.  The function that resolves the bounds
+// tests both against the same upper limit: testing start against n-1 rejects
+// the empty slice at the end (x[n:], and every slice of an empty container).
+func sliceBoundsShareTheLimit(c *core.Ctx) {
+	p := c.P
+	n := 0
+	for _, fn := range repoFns(p, "object") {
+		if !strings.Contains(fn.Name(), "Slice") || fn.Signature.Recv() != nil || len(fn.Params) < 2 {
+			continue
+		}
+		var size *ssa.Parameter
+		for _, prm := range fn.Params {
+			if bt, ok := prm.Type().Underlying().(*types.Basic); ok && bt.Info()&types.IsInteger != 0 {
+				size = prm
+			}
+		}
+		if size == nil {
+			continue
+		}
+		ks := map[int64]string{}
+		for _, b := range fn.Blocks {
+			for _, in := range b.Instrs {
+				bo, ok := in.(*ssa.BinOp)
+				if !ok || (bo.Op != token.GTR && bo.Op != token.GEQ) {
+					continue
+				}
+				k, isSize := int64(0), false
+				switch y := bo.Y.(type) {
+				case *ssa.Parameter:
+					isSize = y == size
+				case *ssa.BinOp:
+					if y.X == ssa.Value(size) {
+						if kc, ok := y.Y.(*ssa.Const); ok && kc.Value != nil {
+							isSize = true
+							k = kc.Int64()
+							if y.Op == token.SUB {
+								k = -k
+							}
+						}
+					}
+				}
+				if !isSize {
+					continue
+				}
+				if bo.Op == token.GEQ {
+					k-- // x >= n+k  is  x > n+k-1
+				}
+				ks[k] = p.Pos(bo.Pos())
+			}
+		}
+		if len(ks) == 0 {
+			continue
+		}
+		n++
+		bad := ""
+		if len(ks) > 1 {
+			for k, pos := range ks {
+				if k != 0 {
+					bad = sprintf("a bound is tested against size%+d at %s", k, pos)
+				}
+			}
+		}
+		c.Check(bad == "", core.SSAName(fn)+"|slice-bounds-share-the-limit", p.Pos(fn.Pos()),
+			fn.Name()+" tests the start and the stop of a slice against the same upper limit (the size)"+ifs(bad != "", ": "+bad+", which rejects the empty slice at the end of the container"))
+	}
+	if n == 0 {
+		core.Undecidedf("no slice-resolving function compares a bound with the size")
+	}
+	c.Stat("slice_resolvers", n)
+}
+
+// ---------------------------------------------------------------------------
+// conversionsCopyByteStorage: byte_slice(x) and buffer(x) make a new value.  The
+// bytes they are built from are a copy when they come out of another script
+// value (ByteSlice.Value(), the Bytes() of a buffer): sharing the backing array
+// lets an assignment to one value change the other.
+func conversionsCopyByteStorage(c *core.Ctx) {
+	p := c.P
+	n := 0
+	for _, fn := range repoFns(p, "builtins") {
+		for _, b := range fn.Blocks {
+			for _, in := range b.Instrs {
+				call, ok := in.(*ssa.Call)
+				if !ok {
+					continue
+				}
+				cal := call.Call.StaticCallee()
+				if cal == nil || cal.Pkg == nil || core.RelPkg(cal.Pkg.Pkg) != "object" || (cal.Name() != "NewByteSlice" && cal.Name() != "NewBufferFromBytes") || len(call.Call.Args) != 1 {
+					continue
+				}
+				n++
+				alias := ""
+				for _, o := range core.Origins(call.Call.Args[0]) {
+					src, ok := o.(*ssa.Call)
+					if !ok {
+						continue
+					}
+					sc := src.Call.StaticCallee()
+					if sc == nil {
+						continue
+					}
+					switch {
+					case sc.Name() == "Value" && sc.Signature.Recv() != nil && core.IsNamed(sc.Signature.Recv().Type(), pkgPath("object"), "ByteSlice"):
+						alias = "the storage of a byte_slice (Value())"
+					case sc.Name() == "Bytes" && sc.Pkg != nil && sc.Pkg.Pkg.Path() == "bytes" && len(src.Call.Args) > 0 &&
+						core.DependsOn(src.Call.Args[0], func(w ssa.Value) bool {
+							vc, ok := w.(*ssa.Call)
+							if !ok {
+								return false
+							}
+							f := vc.Call.StaticCallee()
+							return f != nil && f.Name() == "Value" && f.Signature.Recv() != nil && core.IsNamed(f.Signature.Recv().Type(), pkgPath("object"), "Buffer")
+						}):
+						alias = "the storage of a buffer (Bytes())"
+					}
+				}
+				c.Check(alias == "", core.SSAName(fn)+"|"+cal.Name()+"|copies-byte-storage"+ifs(n > 0, ""), p.Pos(call.Pos()),
+					fn.Name()+" builds the new value from bytes of its own"+ifs(alias != "", ": it is given "+alias+", so the new value and its source share one backing array"))
+			}
+		}
+	}
+	c.Stat("byte_value_constructions", n)
+}
+
+// ---------------------------------------------------------------------------
+// cursorStopsJustPastTheInput: the lexer's stepping function leaves the cursor
+// where it is once it stands just past the input (position == len): every EOF
+// token then has that one position.  Letting it advance once more gives the
+// second EOF token (the one the parser is looking at when it reports an
+// unexpected end of file) a column that does not exist in the source.
+func cursorStopsJustPastTheInput(c *core.Ctx) {
+	p := c.P
+	lp := p.Pkg("lexer")
+	lexT := core.MustType(lp, "Lexer")
+	posI, chI := fieldIdxByName(lexT, "position"), fieldIdxByName(lexT, "characters")
+	if posI < 0 || chI < 0 {
+		core.Undecidedf("Lexer.position / characters not found")
+	}
+	var step *ssa.Function
+	for _, fn := range repoFns(p, "lexer") {
+		for _, b := range fn.Blocks {
+			for _, in := range b.Instrs {
+				if s, ok := in.(*ssa.Store); ok {
+					if fa, ok := s.Addr.(*ssa.FieldAddr); ok && fa.Field == posI && core.NamedOf(fa.X.Type()) == lexT {
+						if _, fresh := fa.X.(*ssa.Alloc); !fresh && (step == nil || core.SSAName(fn) < core.SSAName(step)) {
+							step = fn
+						}
+					}
+				}
+			}
+		}
+	}
+	if step == nil {
+		core.Undecidedf("no lexer function advances the position")
+	}
+	// the guard in the entry block: position OP len(characters)
+	okGuard := ""
+	for _, in := range step.Blocks[0].Instrs {
+		iff, ok := in.(*ssa.If)
+		if !ok {
+			continue
+		}
+		bo, ok := iff.Cond.(*ssa.BinOp)
+		if !ok {
+			continue
+		}
+		_, isPos := loadOfField(bo.X, lexT, posI)
+		isLen := false
+		if call, ok := bo.Y.(*ssa.Call); ok {
+			if bi, ok := call.Call.Value.(*ssa.Builtin); ok && bi.Name() == "len" {
+				if _, ok := loadOfField(call.Call.Args[0], lexT, chI); ok {
+					isLen = true
+				}
+			}
+		}
+		if isPos && isLen {
+			okGuard = bo.Op.String()
+		}
+	}
+	c.Check(okGuard == ">=" || okGuard == "==", core.SSAName(step)+"|cursor-stops-at-len", p.Pos(step.Pos()),
+		step.Name()+" returns without advancing once position == len(characters)"+ifs(okGuard != ">=" && okGuard != "==", sprintf(": its guard is \"position %s len(characters)\", so the cursor advances once more past the end and later EOF tokens get a column that is not in the source", okGuard)))
+}
+
+// ---------------------------------------------------------------------------
+// fragmentsAreRebased: the expressions inside a template string are parsed by a
+// second run of the parser over the text of the fragment.  The tokens of that
+// run count lines and columns from the start of the fragment; unless the run
+// is told where the fragment sits in the source (an option carrying a start
+// position, or an offset applied to the nodes afterwards), every compile error
+// inside an interpolation reports a position relative to the fragment - a line
+// and column that need not exist in the source.
+func fragmentsAreRebased(c *core.Ctx) {
+	p := c.P
+	pp := p.Pkg("parser")
+	parse := core.LookupFunc(pp, "Parse")
+	if parse == nil {
+		core.Undecidedf("parser.Parse not found")
+	}
+	pf := p.SSAFunc(parse)
+	n := 0
+	for _, fn := range repoFns(p, "parser") {
+		if fn == pf {
+			continue
+		}
+		for _, b := range fn.Blocks {
+			for _, in := range b.Instrs {
+				call, ok := in.(*ssa.Call)
+				if !ok || call.Call.StaticCallee() != pf {
+					continue
+				}
+				n++
+				// options given to the nested parse
+				rebased := false
+				if len(call.Call.Args) >= 3 {
+					if k, ok := call.Call.Args[2].(*ssa.Const); !ok || !k.IsNil() {
+						rebased = true // some option is passed: judged by name below
+					}
+				}
+				c.Check(rebased, core.SSAName(fn)+"|nested-parse-rebased", p.Pos(call.Pos()),
+					fn.Name()+" parses a fragment of the source with a parser run that knows where the fragment starts"+ifs(!rebased, ": the nested run is given no position, so errors inside the fragment carry line 1, column n of the fragment instead of the place in the source"))
+			}
+		}
+	}
+	if n == 0 {
+		c.Pass("parser|no-nested-parse", "", "the parser does not parse fragments with a nested run")
+	}
+	c.Stat("nested_parses", n)
+}
